@@ -110,7 +110,34 @@ theorem fileNameToSplit_congr {e e' : Bytes} (h : e.take 11 = e'.take 11) : file
 
 /-- a2kit's key of the entry and the reader's name of it agree -/
 def NameGood (e : Bytes) : Prop :=
-  ∃ nm ty, fileNameToSplit e = some (nm, ty) ∧ entName e = (if ty = [] then nm else nm ++ [46] ++ ty) ∧ 46 ∉ ty
+  ∃ nm ty, fileNameToSplit e = some (nm, ty) ∧ entName e = (if ty = [] then nm else nm ++ [46] ++ ty) ∧ 46 ∉ nm ∧ 46 ∉ ty
+
+/-- after the first end-of-directory mark (first name byte 0) every entry is an end mark: what `format`, `create` and
+`expand_directory` establish by zeroing, and no operation destroys (`delete` marks with 0xE5, never with 0) -/
+def TailZero (E : List Bytes) : Prop :=
+  ∀ (i j : Nat) (e1 e2 : Bytes), i < j → E[i]? = some e1 → E[j]? = some e2 → e1.getD 0 0 = 0 → e2.getD 0 0 = 0
+
+/-- replacing an entry before which no end mark lies by one that is no end mark keeps `TailZero` -/
+theorem tailZero_set {E : List Bytes} (h : TailZero E) {idx : Nat} {e' : Bytes} (hb : ∀ i x, i < idx → E[i]? = some x → x.getD 0 0 ≠ 0)
+    (he : e'.getD 0 0 ≠ 0) : TailZero (E.set idx e') := by
+  intro i j e1 e2 hij h1 h2 hz
+  rw [List.getElem?_set] at h1 h2
+  by_cases hi : idx = i
+  · subst hi
+    rw [if_pos rfl] at h1
+    split at h1
+    · injection h1 with h1
+      rw [← h1] at hz
+      exact absurd hz he
+    · cases h1
+  · rw [if_neg hi] at h1
+    have hgt : idx < i := by
+      by_cases c : i < idx
+      · exact absurd hz (hb i e1 c h1)
+      · omega
+    have hj : ¬ (idx = j) := by omega
+    rw [if_neg hj] at h2
+    exact h i j e1 e2 hij h1 h2 hz
 
 /-- every entry of the root directory that is in use and is not the volume label is no long-name part, no dot entry,
 and is well named -/
@@ -123,6 +150,7 @@ structure Inv (d : Disk) : Prop where
   geo : Geo d
   coh : ∃ f, Coh d f
   root : RootOk d
+  tail : TailZero (dirOfBytes (rootBuf d))
   read : ∃ v, readT d.raw = .ok v ∧ v.wfB = true ∧ v.noLeak = true
 
 /-- the abstract volume of a state: what the total reader reads -/
@@ -146,7 +174,7 @@ def absPath (p : Bytes) : Bytes := if (keyOf p).getLast? = some 46 then (keyOf p
 
 theorem entName_of_key {e nm ty : Bytes} {p : Bytes} (hn : fileNameToSplit e = some (nm, ty)) (hg : NameGood e)
     (hk : keyOf p = nm ++ [46] ++ ty) : entName e = absPath p := by
-  obtain ⟨nm', ty', h1, h2, h3⟩ := hg
+  obtain ⟨nm', ty', h1, h2, _, h3⟩ := hg
   rw [hn] at h1
   injection h1 with h1
   injection h1 with ha hb
@@ -352,6 +380,21 @@ theorem entryType_label {e : Bytes} (h1 : e.getD 0 0 ≠ 0xe5) (h0 : e.getD 0 0 
 
 theorem live_of_type {x : Bytes} (hl : x.length = 32) (h : entryType x ≠ .freeAndNoMore) : live x :=
   ⟨fun h0 => h (entryType_of_zero h0), hl⟩
+
+theorem set_mid {α : Type} (E1 E2 : List α) (e e' : α) : (E1 ++ e :: E2).set E1.length e' = E1 ++ e' :: E2 := by
+  induction E1 with
+  | nil => rfl
+  | cons a t ih => simp [ih]
+
+/-- replacing the entry after a prefix without end mark by an entry that is no end mark keeps `TailZero` -/
+theorem tailZero_replace {E1 E2 : List Bytes} {e e' : Bytes} (h : TailZero (E1 ++ e :: E2))
+    (hE1 : ∀ x ∈ E1, entryType x ≠ .freeAndNoMore) (he : e'.getD 0 0 ≠ 0) : TailZero (E1 ++ e' :: E2) := by
+  rw [← set_mid E1 E2 e e']
+  apply tailZero_set h _ he
+  intro i x hi hx
+  rw [List.getElem?_append_left hi] at hx
+  have hm : x ∈ E1 := List.mem_of_getElem? hx
+  exact fun h0 => hE1 x hm (entryType_of_zero h0)
 
 /-- the facts about an entry that `build_files` (repaired variant) has in its map, under `RootOk` -/
 theorem shown_of_inMap {d : Disk} (ro : RootOk d) {e : Bytes} (hm : e ∈ dirOfBytes (rootBuf d)) (hl : e.length = 32)
